@@ -178,27 +178,53 @@ def check_cmpops(ctx, R="C08.cmpop"):
     from ..linform import equal, lin_src
 
     n_alg = 0
+    cpar = ab.args.args[2].arg  # the constant C of `abs(..) <= C`
+    inner = set(lib.locals_assigned(ab, lambda v: unparse(v).endswith(".args[0]")))  # the argument of abs(.)
     for r in lib.returns_of(ab):
         if not (isinstance(r.value, ast.Tuple) and len(r.value.elts) == 3):
             continue
-        g = [(unparse(t), p) for t, p in lib.guard_tests(r, ab)]
+        g = [(t, p) for t, p in lib.guard_tests(r, ab)]
+
+        def _is_add(t):
+            return isinstance(t, ast.Call) and dotted(t.func) == "isinstance" and len(t.args) == 2 and isinstance(t.args[0], ast.Attribute) and t.args[0].attr == "op" and unparse(t.args[0].value) in inner and unparse(t.args[1]) == "Add"
+
         lo, hi = lin(r.value.elts[0]), lin(r.value.elts[1])
-        if any(t == "isinstance(arg.op, Add)" and p for t, p in g):
-            want = ("-const - match", "const - match")
-        elif any(t == "isinstance(arg.op, Add)" and not p for t, p in g):
-            want = ("-const + match", "const + match")
+        if any(_is_add(t) and p for t, p in g):
+            sign, shape = -1, "(-C - c, C - c)"
+        elif any(_is_add(t) and not p for t, p in g):
+            sign, shape = +1, "(-C + c, C + c)"
         else:
-            want = ("-const", "const")
+            sign, shape = 0, "(-C, C)"
         n_alg += 1
-        if equal(lo, lin_src(want[0])) and equal(hi, lin_src(want[1])):
-            ctx.ok(R, r, f"abs bound `{unparse(r.value)}` = ({want[0]}, {want[1]})")
+        others = sorted((set(lo) | set(hi)) - {cpar})
+        good = lo.get(cpar) == -1 and hi.get(cpar) == 1
+        if sign == 0:
+            good = good and not others
         else:
-            ctx.finding(R, r, f"abs bound algebra {norm_text(r.value, 50)}", f"matchAbsBounds returns `{unparse(r.value)}`; |q ± c| <= C requires ({want[0]}, {want[1]})")
+            # the same matched constant c (whatever the local is called) enters both bounds with the sign of the algebra
+            good = good and len(others) == 1 and others[0] != "" and lo.get(others[0]) == sign and hi.get(others[0]) == sign
+        if good:
+            ctx.ok(R, r, f"abs bound `{unparse(r.value)}` has the form {shape}")
+        else:
+            ctx.finding(R, r, f"abs bound algebra {shape}", f"matchAbsBounds returns `{unparse(r.value)}`; |q ± c| <= C requires {shape}")
     ctx.floor(R, n_alg, 3, "abs-bound returns")
     # merging keeps the tightest bounds
     mb = model.func(RL, "RequirementMatcher.matchBounds")
-    t = unparse(mb)
-    if "lower > bestLower" in t and "upper < bestUpper" in t:
+    # roles: (lower, upper, target) unpacked from matchBoundsInner(..); (bestLower, bestUpper) unpacked from the table
+    inner_u = [n for n in walk_local(mb) if isinstance(n, ast.Assign) and isinstance(n.targets[0], ast.Tuple) and len(n.targets[0].elts) == 3 and isinstance(n.value, ast.Call) and unparse(n.value.func).endswith("matchBoundsInner")]
+    best_u = [n for n in walk_local(mb) if isinstance(n, ast.Assign) and isinstance(n.targets[0], ast.Tuple) and len(n.targets[0].elts) == 2 and isinstance(n.value, ast.Subscript)]
+    merged = False
+    if len(inner_u) == 1 and len(best_u) == 1 and all(isinstance(e, ast.Name) for e in inner_u[0].targets[0].elts + best_u[0].targets[0].elts):
+        lo_, hi_, _t = (e.id for e in inner_u[0].targets[0].elts)
+        bl, bh = (e.id for e in best_u[0].targets[0].elts)
+        upd = {}
+        for n in walk_local(mb):
+            if isinstance(n, ast.If) and len(n.body) == 1 and isinstance(n.body[0], ast.Assign) and isinstance(n.body[0].targets[0], ast.Name):
+                upd[(n.body[0].targets[0].id, unparse(n.body[0].value))] = lib.ctext(n.test)
+        t1 = upd.get((bl, lo_), "")
+        t2 = upd.get((bh, hi_), "")
+        merged = lib.ctext_of(f"{lo_} > {bl}") in t1 and f"{lo_} is not None" in t1 and lib.ctext_of(f"{hi_} < {bh}") in t2 and f"{hi_} is not None" in t2
+    if merged:
         ctx.ok(R, mb, "chained comparisons keep the greatest lower and the least upper bound")
     else:
         ctx.finding(R, mb, "matchBounds merge", "matchBounds no longer keeps the greatest lower / least upper bound of a chained comparison")
@@ -319,7 +345,10 @@ def check_polarity(ctx, R="C08.polarity"):
             th = [tags.get(a.id) for s, a in _terms(hi, fn) if isinstance(a, ast.Name) and a.id in tags]
             names_lo = [unparse(a) for s, a in _terms(lo, fn)]
             names_hi = [unparse(a) for s, a in _terms(hi, fn)]
-            if tl == ["LOWER"] and th == ["UPPER"] and "lower" in names_lo and "upper" in names_hi:
+            rec = [n_ for n_ in walk_local(fn) if isinstance(n_, ast.Assign) and isinstance(n_.targets[0], ast.Tuple) and len(n_.targets[0].elts) == 3 and isinstance(n_.value, ast.Call) and dotted(n_.value.func) == fn.name]
+            rl = rec[0].targets[0].elts[1].id if rec and isinstance(rec[0].targets[0].elts[1], ast.Name) else None
+            rh = rec[0].targets[0].elts[2].id if rec and isinstance(rec[0].targets[0].elts[2], ast.Name) else None
+            if tl == ["LOWER"] and th == ["UPPER"] and rl in names_lo and rh in names_hi:
                 ctx.ok(R, r, "heading disturbance bounds: lower + LOWER(offset), upper + UPPER(offset)")
             else:
                 ctx.finding(R, r, "matchPolygonalField offsets", f"matchPolygonalField returns `{unparse(r.value)}`: the offset's lower bound must be added to `lower` and its upper bound to `upper`")
@@ -335,8 +364,23 @@ def check_polarity(ctx, R="C08.polarity"):
         elif tags:
             ctx.ok(R, fn, f"{q}: all support bounds used ({sorted(tags)}) are UPPER components")
     fn = model.func(PR, "maxDistanceBetween")
-    t = unparse(fn)
-    if "rel.upper < reqDist" in t and "return min(visDist, reqDist)" in t:
+    infs = lib.locals_assigned(fn, lambda v: unparse(v) in ("float('inf')", "math.inf", "numpy.inf", "inf"))
+    rets_ = [r for r in lib.returns_of(fn) if r.value is not None]
+    good_ = False
+    if len(infs) == 2 and len(rets_) == 1 and isinstance(rets_[0].value, ast.Call) and dotted(rets_[0].value.func) == "min" and sorted(unparse(a) for a in rets_[0].value.args) == sorted(infs):
+        # one accumulator is tightened with visibilityBound(..) through min; the other with the relations' `.upper`
+        vis = [v for v in infs if any(isinstance(n_, ast.Assign) and unparse(n_.targets[0]) == v and isinstance(n_.value, ast.Call) and dotted(n_.value.func) == "min" and "visibilityBound" in unparse(n_.value) and v in lib.names_loaded(n_.value) for n_ in walk_local(fn))]
+        req = [v for v in infs if v not in vis]
+        if len(vis) == 1 and len(req) == 1:
+            rq = req[0]
+            for n_ in walk_local(fn):
+                if isinstance(n_, ast.If) and len(n_.body) == 1 and isinstance(n_.body[0], ast.Assign) and unparse(n_.body[0].targets[0]) == rq:
+                    val = n_.body[0].value
+                    if isinstance(val, ast.Attribute) and val.attr == "upper" and lib.ctext(n_.test) == lib.ctext_of(f"{unparse(val)} < {rq}"):
+                        good_ = True
+                if isinstance(n_, ast.Assign) and unparse(n_.targets[0]) == rq and isinstance(n_.value, ast.Call) and dotted(n_.value.func) == "min" and rq in lib.names_loaded(n_.value) and any(isinstance(a, ast.Attribute) and a.attr == "upper" for a in n_.value.args):
+                    good_ = True
+    if good_:
         ctx.ok(R, fn, "maxDistanceBetween takes the least of the upper bounds implied by visibility and by distance requirements")
     else:
         ctx.finding(R, fn, "maxDistanceBetween min", "maxDistanceBetween no longer returns the minimum of the visibility bound and the requirements' *upper* distance bounds")
@@ -345,7 +389,7 @@ def check_polarity(ctx, R="C08.polarity"):
     for n_ in walk_local(fn):
         if isinstance(n_, ast.Assign) and isinstance(n_.value, ast.Call) and dotted(n_.value.func) == "supportInterval" and "planarInradius" in unparse(n_.value):
             g = " && ".join(unparse(t) for t, p in lib.guard_tests(n_, fn) if p)
-            if "isinstance(base, PolygonalRegion)" in g and "obj.pitch" in g and "obj.roll" in g and "(0, 0)" in g:
+            if "PolygonalRegion)" in g and "isinstance(" in g and ".pitch" in g and ".roll" in g and "(0, 0)" in g:
                 ctx.ok(R, n_, "planar inradius is used only for polygonal bases with pitch and roll fixed at 0")
             else:
                 ctx.finding(R, n_, "planarInradius guard", f"planarInradius is used under `{g}`; it bounds the object's extent only when pitch and roll are exactly 0 in a polygonal base")
@@ -372,7 +416,7 @@ def check_subset(ctx, R="C08.subset"):
     ctx.floor(R, len(sites), 3, "conditionTo sites in pruning.py")
     for q, fn, c in sites:
         recv = unparse(c.func.value)
-        if recv != "obj.position":
+        if not (isinstance(c.func.value, ast.Attribute) and c.func.value.attr == "position" and isinstance(c.func.value.value, ast.Name)):
             ctx.finding(R, c, f"{q} conditions {recv}", f"{q}: `{unparse(c)}` conditions `{recv}`; pruning may only replace an object's position")
             continue
         problems = []
@@ -406,6 +450,17 @@ def _defs(fn, name, at):
     return out
 
 
+def _offset_names(fn):
+    """Locals holding the offset matched by matchInRegion (second component of its result), whatever they are called."""
+    out = set()
+    for n in ast.walk(fn):
+        if isinstance(n, ast.Assign) and isinstance(n.targets[0], ast.Tuple) and len(n.targets[0].elts) == 3 and isinstance(n.value, ast.Call) and dotted(n.value.func) == "matchInRegion":
+            e = n.targets[0].elts[1]
+            if isinstance(e, ast.Name):
+                out.add(e.id)
+    return out
+
+
 def _value_ok(fn, e, problems, seen, at, depth=0):
     """position value: uniformPointIn(R) | V + offset | Name thereof"""
     if depth > 10:
@@ -419,7 +474,7 @@ def _value_ok(fn, e, problems, seen, at, depth=0):
             problems.append(f"`{e.id}` has no definition")
         for d in ds:
             if isinstance(d, tuple) and d[0] == "aug":
-                if not (isinstance(d[1].op, ast.Add) and unparse(d[1].value) == "offset"):
+                if not (isinstance(d[1].op, ast.Add) and unparse(d[1].value) in _offset_names(fn)):
                     problems.append(f"`{unparse(d[1])}` changes the position by something other than the matched offset")
             elif isinstance(d, tuple):
                 if not (dotted(d[1].func) == "matchInRegion" if isinstance(d[1], ast.Call) else False):
@@ -430,7 +485,7 @@ def _value_ok(fn, e, problems, seen, at, depth=0):
                 _value_ok(fn, d, problems, seen, at, depth + 1)
         return
     if isinstance(e, ast.BinOp) and isinstance(e.op, ast.Add):
-        if unparse(e.right) == "offset":
+        if unparse(e.right) in _offset_names(fn):
             return _value_ok(fn, e.left, problems, seen, at, depth + 1)
         problems.append(f"`{unparse(e)}` adds something other than the matched offset")
         return
@@ -543,9 +598,18 @@ def check_progress(ctx, R="C08.progress"):
     for q, need in (("MeshVolumeRegion._erodeOverapproximate", "floor"), ("MeshVolumeRegion._bufferOverapproximate", "ceil")):
         fn = model.func(RG, q)
         amt = fn.args.args[1].arg
-        its = [s for s in ast.walk(fn) if isinstance(s, ast.Assign) and any(isinstance(t, ast.Name) and t.id == "iterations" for t in s.targets)]
+        # the pass count is whatever local feeds `.dilation(iterations=...)`; the voxel size is whatever local is computed
+        # from the mesh extents -- neither is recognised by its name
+        fed = set()
+        for c in ast.walk(fn):
+            if isinstance(c, ast.Call) and isinstance(c.func, ast.Attribute) and c.func.attr == "dilation":
+                a = lib.kw(c, "iterations") or (c.args[0] if c.args else None)
+                if a is not None:
+                    fed |= lib.names_loaded(a)
+        its = [s for s in ast.walk(fn) if isinstance(s, ast.Assign) and any(isinstance(t, ast.Name) and t.id in fed for t in s.targets)]
         if not its:
             raise AnalysisError(f"shape not recognised: {q} iterations")
+        voxel_size = set(lib.locals_assigned(fn, lambda v: "self.mesh.extents" in unparse(v) and fn.args.args[2].arg in lib.names_loaded(v)))
         for s in its:
             calls = [c for c in ast.walk(s.value) if isinstance(c, ast.Call) and dotted(c.func) in ("math.floor", "math.ceil")]
             if len(calls) != 1 or not isinstance(calls[0].args[0], ast.BinOp) or not isinstance(calls[0].args[0].op, ast.Div):
@@ -558,7 +622,7 @@ def check_progress(ctx, R="C08.progress"):
                 ctx.finding(R, s, f"{q} rounding {rounding}", f"{q}: the number of voxel passes is rounded with {rounding}; an over-approximation needs {need}")
             elif unparse(num) != amt:
                 ctx.finding(R, s, f"{q} numerator", f"{q}: passes are computed from `{unparse(num)}`, not from the requested amount `{amt}`")
-            elif "target_pitch" not in lib.names_loaded(div):
+            elif not (voxel_size & lib.names_loaded(div)) and "self.mesh.extents" not in unparse(div):
                 ctx.finding(
                     R,
                     s,
@@ -586,7 +650,9 @@ def check_room(ctx, R="C08.room"):
     )
     model = ctx.model
     fn = model.func(RG, "VoxelRegion.dilation")
-    calls = [c for c in ast.walk(fn) if isinstance(c, ast.Call) and isinstance(c.func, ast.Name) and c.func.id == "morphology_func"]
+    morph = set(lib.locals_assigned(fn, lambda v: isinstance(v, ast.Attribute) and v.attr in ("binary_dilation", "binary_erosion")))
+    itp = fn.args.args[1].arg
+    calls = [c for c in ast.walk(fn) if isinstance(c, ast.Call) and isinstance(c.func, ast.Name) and c.func.id in morph]
     uses_dil = any(isinstance(n, ast.Attribute) and n.attr == "binary_dilation" for n in ast.walk(fn))
     if not calls or not uses_dil:
         raise AnalysisError("shape not recognised: VoxelRegion.dilation")
@@ -597,7 +663,8 @@ def check_room(ctx, R="C08.room"):
             for n in ast.walk(fn):
                 if isinstance(n, ast.Assign) and any(isinstance(t_, ast.Name) and t_.id == a.id for t_ in n.targets) and isinstance(n.value, ast.Call) and dotted(n.value.func) in ("numpy.pad", "np.pad"):
                     g = " ".join(unparse(t_) for t_, p_ in lib.guard_tests(n, fn) if p_)
-                    if "binary_dilation" in g or "iterations > 0" in g:
+                    gc = " ".join(lib.ctext(t_) for t_, p_ in lib.guard_tests(n, fn) if p_)
+                    if "binary_dilation" in g or lib.ctext_of(f"{itp} > 0") in gc:
                         padded = True
         elif isinstance(a, ast.Call) and dotted(a.func) in ("numpy.pad", "np.pad"):
             padded = True
